@@ -107,6 +107,8 @@ def fork_call(fn, timeout=600.0):
 def run_group(engine_name, verif_seed, indices, tier):
     """One universe group: prepare the universe-level caches once, then one forked child per run."""
     eng = _import_engine(engine_name)
+    from simkit import universe
+    universe.start_ref_server()          # this process is still pristine: forked from a pool worker
     if hasattr(eng, 'prepare') and indices:
         try:
             eng.prepare(verif_seed, indices[0])
@@ -248,6 +250,8 @@ def main(engine_name, argv=None):
             return 2
 
     # ---- violations: classify against the known findings, minimise, write replay files
+    from simkit import universe
+    universe.start_ref_server()          # this process never constructed a grammar: still pristine
     known = load_known()
     new, knownhits = [], {}
     for v in agg['violations']:
@@ -334,6 +338,8 @@ def replay(eng, path):
     with open(path) as f:
         doc = json.load(f)
     _limit_worker()
+    from simkit import universe
+    universe.start_ref_server()          # a fresh interpreter is pristine
     want = doc.get('key')
     other = None
     # One attempt decides, except for behaviour that depends on object addresses (a cache keyed by
